@@ -139,6 +139,39 @@
   (def want-err (if (= (item :mode) "both") (string/reverse data) ""))
   [(if stuck :stuck :finished) code (= (string out) want-out) (length out) (= (string err) want-err) (length err)])
 
+(defn run-execute [item]
+  # os/execute while another fiber forces collections: status and redirected output must be exact
+  (def path (string (item :scratch) "/exec-" (os/getpid) ".out"))
+  (def f (file/open path :w))
+  (var stop false)
+  (ev/go (fn [] (while (not stop) (gccollect) (ev/sleep 0.001))))
+  (def code (os/execute ["/bin/sh" "-c" (string "sleep 0.05; echo done-" (item :code) "; exit " (item :code))] :p {:out f}))
+  (set stop true)
+  (file/close f)
+  (def out (slurp path))
+  (os/rm path)
+  [:finished code (string out)])
+
+(defn run-queued [item]
+  # the whole payload is queued on the stream before the reader asks for it, and the writer then stays idle:
+  # a chunked read must complete without any further event from the peer
+  (def [rd wr extra] (make-pair (item :kind) (item :scratch)))
+  (def size (item :size))
+  (def data (payload 0 size))
+  (def done (ev/chan 2))
+  (var wres :pending) (var rres :pending)
+  (ev/go (fn [] (set wres (try (do (ev/write wr data) :ok) ([e] [:error (string e)]))) (ev/give done :w)))
+  (def t (new-tracker))
+  (def wstuck (try (do (ev/with-deadline 500 (ev/take done)) false) ([e] true)))
+  (unless wstuck
+    (ev/go (fn [] (set rres (try (do (def b (if (= (item :mode) :chunk) (ev/chunk rd size) (ev/read rd size)))
+                                    (when b (track t b)) :done) ([e] [:error (string e)])))
+             (ev/give done :r)))
+    (try (ev/with-deadline 500 (ev/take done)) ([e] nil)))
+  (when extra (protect (ev/close extra)))
+  (protect (ev/close rd)) (protect (ev/close wr))
+  [(if wstuck :writer-blocked :ran) wres rres (t :total) (t :bad)])
+
 (defn run-signal [item]
   # a child that sleeps is killed with a signal: the wait result must report it
   (def p (os/spawn ["/bin/sleep" "100"] :p))
@@ -155,6 +188,8 @@
     (def r (case (item :what)
              :stream (run-stream item)
              :proc (run-proc item)
-             :signal (run-signal item)))
+             :signal (run-signal item)
+             :execute (run-execute item)
+             :queued (run-queued item)))
     (def c1 (verif/io-calls))
     (canon [r (- (c1 0) c0)])))
